@@ -119,23 +119,23 @@ NOT_APPLICABLE = {}
 
 # additions of the third session (appended to the texts above)
 ADDENDA = {
- "C09": (" Single-operator programs at 33..100 bits are compared across all configurations; two further configurations switch on diagnostics and every listing (SSA, dot, circuit file, svg): asking for more output must not change the circuit.", ""),
+ "C09": (" Single-operator programs at 33..100 bits are compared across all configurations; two further configurations switch on diagnostics and every listing (SSA, dot, circuit file, svg): asking for more output must not change the circuit. A further configuration switches all warnings off; programs whose results are partly literals and returns inside unrolled loops are part of the corpus.", ""),
  "C14": (" Round trips include signatures with more than 2000 arguments (header lines beyond a reader buffer).", ""),
  "C12": (" The same folds are also reached on other routes (constant locals, constant arguments, an unsized function instantiated for the same constants at two widths, a constant that is also cast to a wider type); a routed fold that differs from the package-constant fold of the same typed operands has its own key (fold-route).", ""),
  "C01": (" Garbling randomness also comes from degenerate streams (all zero, all one, counting, one bit per byte) and labels are compared byte by byte, independent of Label.Equal. Wide input arguments are also given as small negative numbers (-1, -k).", ""),
- "C03": (" Mpcl.tla also covers returns inside unrolled loops (guarded by the loop variable or a run-time condition), nested loops, the loop variable as operand, a local shadowing a package-level variable, and two-operator expressions without parentheses (precedence, associativity); a refusal of a generated program other than the one known class is a violation.", ""),
- "C04": (" TwoParty.tla has a deviating evaluator (any OT range, any choice bits): Secrecy is model-checked under the range check as coded and a loosened check is rejected; on the real code the evaluator's range message is rewritten to seven other ranges and what the garbler hands to OT is inspected.", ""),
- "C05": (" Second layer StreamWire.tla (gate message encoding, declarations, the evaluator's paged and temporary label stores) model-checked by TLC with two deviation guards; transcripts of real streaming sessions are parsed into messages by an independent parser and validated as behaviours of the evaluator machine (StreamWireTrace.tla, drift level). Corpora include cache-stress programs (same operator, partly equal operand types), struct/array-of-array/bool arguments and results, builtin circuits.", ""),
+ "C03": (" Mpcl.tla also covers returns inside unrolled loops (guarded by the loop variable or a run-time condition), nested loops, the loop variable as operand, a local shadowing a package-level variable, and two-operator expressions without parentheses (precedence, associativity); a refusal of a generated program other than the one known class is a violation. Tuple assignments (variables, struct fields, array elements, call results, a tuple in a loop header) and compound assignments (op=, ++/--, on variables, fields and elements, a loop over len) are statement kinds of Mpcl.tla; literal operands beyond 64 bits are enumerated.", ""),
+ "C04": (" TwoParty.tla has a deviating evaluator (any OT range, any choice bits): Secrecy is model-checked under the range check as coded and a loosened check is rejected; on the real code the evaluator's range message is rewritten to seven other ranges and what the garbler hands to OT is inspected. Streaming sessions with input arguments of more than 65536 wires.", ""),
+ "C05": (" Second layer StreamWire.tla (gate message encoding, declarations, the evaluator's paged and temporary label stores) model-checked by TLC with two deviation guards; transcripts of real streaming sessions are parsed into messages by an independent parser and validated as behaviours of the evaluator machine (StreamWireTrace.tla, drift level). Corpora include cache-stress programs (same operator, partly equal operand types), struct/array-of-array/bool arguments and results, builtin circuits. Native circuits called directly with constants narrower than their inputs.", ""),
  "C06": (" A sub-protocol in which sender and receiver wait for each other is an outcome (stall), and the outputs of earlier batches are re-validated after later batches on the same instance.", ""),
  "C07": (" Arith.tla also defines array index (the documented low-bits rule), logical and/or and bit tests with a constant bit number; complete tables for arrays of 1..6 (8) elements.", ""),
- "C08": (" Histories include a program that fails to compile after imported packages were instantiated and a program importing several packages with package-level variables.", ""),
+ "C08": (" Histories include a program that fails to compile after imported packages were instantiated and a program importing several packages with package-level variables. Determ.tla has the share mode 'par' (compilations at the same time in one process, guard LeakScratch); the child runs such operations concurrently.", ""),
  "C10": (" GmwNet.tla (formation of the network: online/offline connection per pair, sequential accept loops, leader phases, peer list; Complete/NoError/ListComplete/termination) model-checked for 2-5 parties; every real run inspects the connection table when Connect returns (tagged accessor), runs further circuits on the used network and counts a crash of a library goroutine as an outcome.", ""),
- "C11": (" The library's own in-memory transport p2p.Pipe is exercised with an early Close and a late, slow reader.", ""),
- "C13": (" Also: string results and arrays of strings/booleans (IOEnc.tla StrWires/StrChars), circuit.Sizes (size inference from Go values: sufficient, equal to the textual form, read back), mpc.Results.", ""),
- "C15": (" The outputs of earlier accepted batches are re-validated after later Sends on the same sender. An honest batch follows every aborted one on the same pair (it must not abort or hang); batch sizes include exact multiples of 1024.", ""),
- "C16": (" In streaming sessions every program-information byte and the first fields of the result message are also halved (smaller sizes/counts), not only flipped. The same alteration is also applied to two, three and four returned result labels at once.", ""),
+ "C11": (" The library's own in-memory transport p2p.Pipe is exercised with an early Close and a late, slow reader. Buffer dimensions (write and read buffer size, number of write buffers) are measured on a live Conn and substituted into the generator and trace configurations; the caller overwrites its buffer as soon as SendData has returned.", ""),
+ "C13": (" Also: string results and arrays of strings/booleans (IOEnc.tla StrWires/StrChars), circuit.Sizes (size inference from Go values: sufficient, equal to the textual form, read back), mpc.Results. Compiled programs with a struct argument that mixes sized and unsized members return every member (the layout Parse/Set produce is the layout the program reads).", ""),
+ "C15": (" The outputs of earlier accepted batches are re-validated after later Sends on the same sender. An honest batch follows every aborted one on the same pair (it must not abort or hang); batch sizes include exact multiples of 1024. Kos.tla covers a second flip in the column; flips are located by the batch's global row while the messages pass (no assumption about message sizes), the place of the check rows is measured.", ""),
+ "C16": (" In streaming sessions every program-information byte and the first fields of the result message are also halved (smaller sizes/counts), not only flipped. The same alteration is also applied to two, three and four returned result labels at once. A panic of the garbler's own code on corrupted input is a violation (neither error, aborted stall nor the correct value).", ""),
  "C17": (" Pool.tla models Garble failing after Get (FailPuts; a double Put on the error path is rejected); stress goroutines garble with a randomness source that gives out part way. Pool.tla has a Use action (a holder reads its garbling only while it holds it; releasing early and reading on is rejected); whole Garbler/Evaluator sessions overlap on one circuit value with the older sessions' peers held after OT.", ""),
- "C19": (" Mesh.tla rejects an accept loop that runs before need[] is set (EarlyAccept); free-running formation holds the highest-id joiner at the peer-list gate while lower ids dial it. A party that starts 12.5 s (thorough: also 35 s and 65 s) after it joined must still be admitted.", ""),
+ "C19": (" Mesh.tla rejects an accept loop that runs before need[] is set (EarlyAccept); free-running formation holds the highest-id joiner at the peer-list gate while lower ids dial it. A party that starts 12.5 s (thorough: also 35 s and 65 s) after it joined must still be admitted. A joiner that starts before the leader and retries, and parties on distinct loopback hosts sharing a port number; Mesh.tla dials the targets of a round in any order.", ""),
  "C20": (" Moduli around the machine word sizes (2^31-1 .. 2^64+13, 2^127-1, 2^128-159, 2^192-237) are part of every run. Sender inputs also arrive in other representations of the residue (a-p, a+p, negative numbers).", ""),
 }
 
